@@ -371,7 +371,7 @@ Qed.
 
 (* the tree after a successful rename *)
 Definition renamed (g' : fsT) : Prop := exists x0 g1 na KS,
-  lm_get m0 oldname = Some x0 /\ plain oldname /\ plain newname /\ lm_get m0 newname = None
+  lm_get m0 oldname = Some x0 /\ plain oldname /\ (plain newname /\ legal_name newname = true) /\ lm_get m0 newname = None
   /\ check_inheritance m0 = true
   /\ SubL c f g1 /\ In (d, na) g1
   /\ (forall k, In k KS -> exists x, In x m0 /\ static k = static x /\ l_base x = oldname)
@@ -467,6 +467,215 @@ Proof.
   eapply h_conseq; [apply (wfa_exact e Hreal (fold_left (step c newname) KS g2))|auto| |apply HT].
   - intros en Hen. apply (HT3 newname (or_introl eq_refl) en Hen).
   - cbn beta. intros u g ->. exists x0, g1, na, KS.
-    exact (conj Ex0 (conj Hpo (conj Hpn (conj Exn (conj Hci (conj HS (conj Hna (conj KSs (conj KSc eq_refl))))))))).
+    exact (conj Ex0 (conj Hpo (conj (conj Hpn Hleg_n) (conj Exn (conj Hci (conj HS (conj Hna (conj KSs (conj KSc eq_refl))))))))).
 Qed.
 End RenameRun.
+
+(* ------------------------------------------------------------------ looking into the rewritten tree *)
+Section Fold.
+Variable c : cfgT.
+Variable newname : bytes.
+Local Notation stp := (step c newname).
+Local Notation P k := (PC c (l_name k)).
+
+Lemma fold_in KS : forall g en, In en g -> (forall k, In k KS -> fst en <> P k) -> In en (fold_left stp KS g).
+Proof.
+  induction KS as [|k r IH]; intros g en Hen Hne; cbn [fold_left]; [exact Hen|].
+  apply IH; [|intros k' Hk'; apply Hne; now right]. apply rewritten_in; [exact Hen|apply Hne; now left].
+Qed.
+Lemma fold_get_miss KS key : forall g, (forall k, In k KS -> key <> P k) -> fs_get (fold_left stp KS g) key = fs_get g key.
+Proof.
+  induction KS as [|k r IH]; intros g Hne; cbn [fold_left]; [reflexivity|].
+  rewrite IH by (intros k' Hk'; apply Hne; now right). apply rewritten_get_other. apply Hne. now left.
+Qed.
+Lemma fold_get_keep KS key x : forall g, fs_get g key = Some (File x) ->
+  (forall k, In k KS -> P k = key -> Xk newname k = x) -> fs_get (fold_left stp KS g) key = Some (File x).
+Proof.
+  induction KS as [|k r IH]; intros g Hg Hc; cbn [fold_left]; [exact Hg|].
+  apply IH; [|intros k' Hk'; apply Hc; now right]. unfold step.
+  destruct (beq (P k) key) eqn:E.
+  - apply beq_true in E. rewrite <- E at 1. rewrite rewritten_get_self. rewrite (Hc k (or_introl eq_refl) E). reflexivity.
+  - apply beq_false in E. rewrite rewritten_get_other by congruence. exact Hg.
+Qed.
+Lemma fold_get_hit KS k : forall g, In k KS ->
+  (forall k1, In k1 KS -> P k1 = P k -> Xk newname k1 = Xk newname k) ->
+  fs_get (fold_left stp KS g) (P k) = Some (File (Xk newname k)).
+Proof.
+  induction KS as [|k0 r IH]; intros g Hin Hc; [destruct Hin|]. cbn [fold_left].
+  destruct Hin as [->|Hin].
+  - apply fold_get_keep; [unfold step; apply rewritten_get_self|]. intros k1 Hk1. apply Hc. now right.
+  - apply IH; [exact Hin|]. intros k1 Hk1. apply Hc. now right.
+Qed.
+End Fold.
+
+(* ------------------------------------------------------------------ small facts *)
+Lemma no_self_base m x : check_inheritance m = true -> In x m -> l_name x <> [] -> l_base x <> l_name x.
+Proof.
+  intros Hci Hx Hne E. unfold check_inheritance in Hci. rewrite forallb_forall in Hci. specialize (Hci x Hx).
+  rewrite E in Hci. cbn [chain_ok] in Hci. destruct (l_name x) as [|ch r] eqn:En; [congruence|].
+  rewrite <- En in Hci. destruct (lm_get_of_in m x Hx) as (k1 & E1). rewrite E1 in Hci.
+  destruct (lm_get_in _ _ _ E1) as [_ Hn1]. rewrite Hn1 in Hci. unfold memb in Hci. cbn [existsb] in Hci. rewrite beq_refl in Hci. discriminate.
+Qed.
+
+Lemma loaded_wf c g n x : load_layer c g n = Some x -> lf_wf (l_base x) (l_mounts x) (l_exports x) = true.
+Proof.
+  unfold load_layer. match goal with |- match ?t with _ => _ end = _ -> _ => destruct t as [content|] end; [|discriminate].
+  intros H. injection H as <-. cbn [l_base l_mounts l_exports]. destruct (read_layerfile_wf content) as (H1 & H2 & H3).
+  apply lf_wf_parts. auto.
+Qed.
+
+Lemma load_from_content c g n X b ms es : plain n -> wf_cfg c = true ->
+  fs_get g (PC c n) = Some (File X) -> read_layerfile X = MkLF b ms es 0 ->
+  load_layer c g n = Some (MkL n b ms es (layer_path c n) st_empty false false false false []).
+Proof.
+  intros Hn Hcfg Hg Hr. unfold load_layer. change D_LayerconfigFile with LCF. rewrite (PC_eq c Hcfg n Hn).
+  unfold is_file, read_file. rewrite (stat_file _ _ _ Hg), Hr. reflexivity.
+Qed.
+
+Theorem rename_preserves c w e um oldname newname :
+  e_pretend e = false -> wf_rename c (wo_fs w) oldname newname = true ->
+  conj2 c w (view_of_model c w e (CRename oldname newname) um) = true.
+Proof.
+  intros Hreal Hwf. set (f := wo_fs w).
+  unfold wf_rename in Hwf. fold f in Hwf. apply andb_true_iff in Hwf as [Hwf Hok]. apply andb_true_iff in Hwf as [Hcfg Hreg].
+  unfold rename_ok in Hok. apply andb_true_iff in Hok as [Hok H6]. apply andb_true_iff in Hok as [Hok H5b].
+  apply andb_true_iff in Hok as [Hok H5a]. apply andb_true_iff in Hok as [H3 H4].
+  assert (R3 : forall lk en, In lk (links c oldname) -> In en f -> at_or_under lk (fst en) = true ->
+                             at_or_under (c_layers c) (fst en) = false).
+  { intros lk en Hlk Hen Hu. rewrite forallb_forall in H3. specialize (H3 lk Hlk). rewrite forallb_forall in H3.
+    specialize (H3 en Hen). rewrite Hu in H3. cbn [andb] in H3. now apply negb_true_iff in H3. }
+  assert (R4 : forall en, In en f -> at_or_under (layer_path c newname) (fst en) = false).
+  { intros en Hen. rewrite forallb_forall in H4. apply H4 in Hen. now apply negb_true_iff in Hen. }
+  assert (R5 : forall nn en, In nn (children f (c_layers c)) \/ nn = newname -> In en f ->
+                             at_or_under (pathjoin [layer_path c nn; LCF] ++ tmp_suffix) (fst en) = false).
+  { intros nn en Hnn Hen. assert (T : tmp_free c f nn = true).
+    { destruct Hnn as [Hnn| ->]; [|exact H5b]. rewrite forallb_forall in H5a. now apply H5a. }
+    unfold tmp_free in T. rewrite forallb_forall in T. apply T in Hen. now apply negb_true_iff in Hen. }
+  pose proof (rename_run c f e um oldname newname Hcfg Hreal R3 R4 R5 (MkSt (world_of w) 0 []) eq_refl) as HR.
+  unfold conj2, view_of_model, run.
+  destruct (run_command e c um (CRename oldname newname) (MkSt (world_of w) 0 [])) as [o st].
+  cbn [v_res v_env v_cmd v_after wo_fs]. destruct o; cbn [rclass_of]; try reflexivity.
+  destruct (e_fault e); try reflexivity. fold f.
+  destruct HR as (x0 & g1 & na & KS & Ex0 & Hpo & [Hpn Hlegn] & Exn & Hci & HS & Hna & KSs & KSc & Ef').
+  change (fs_of st) with (w_fs (s_w st)) in Ef'. rewrite Ef'. clear Ef'.
+  set (d := LP c oldname) in *. set (d' := LP c newname) in *.
+  set (g2 := map (move_entry d d') g1).
+  set (G := fold_left (step c newname) KS g2).
+  set (X' := concat (layerfile_chunks (l_base x0) (l_mounts x0) (l_exports x0))).
+  set (F' := rewritten G (PC c newname) X').
+  destruct (lm_get_in _ _ _ Ex0) as [Hx0in Hx0n].
+  destruct HS as (Hinc & Hkeep & Hget).
+  (* names of the kids *)
+  assert (KSp : forall k, In k KS -> plain (l_name k)).
+  { intros k Hk. destruct (KSs k Hk) as (x & Hx & Hst & _). rewrite (static_name _ _ Hst).
+    destruct (loaded_named c f x Hx) as (Hch & Hlg & _). apply legal_plain; [exact Hlg|].
+    apply children_in in Hch as (q & nd & _ & _ & _ & <-). apply pathbase_nonempty. }
+  (* an entry whose parent is the layers directory is no layerconfig *)
+  assert (NotPC : forall q n, plain n -> pathdir q = c_layers c -> q <> PC c n).
+  { intros q n Hn Hd ->. rewrite (pathdir_PC c Hcfg n Hn) in Hd. now apply (LP_neq_L c Hcfg n Hn). }
+  assert (InF' : forall q nd, In (q, nd) g2 -> pathdir q = c_layers c -> In (q, nd) F').
+  { intros q nd Hq Hd. apply (rewritten_in G _ X' (q, nd)); [|cbn [fst]; now apply NotPC].
+    apply fold_in; [exact Hq|]. intros k Hk. cbn [fst]. apply NotPC; [now apply KSp|exact Hd]. }
+  apply forallb_forall. intros x Hx. destruct (l_state x =? st_error)%N; [reflexivity|].
+  destruct (loaded_named c f x Hx) as (Hch & Hlg & Hld). unfold layers_on_disk in Hx.
+  assert (Hnn : plain (l_name x)).
+  { apply legal_plain; [exact Hlg|]. apply children_in in Hch as (q & nd & _ & _ & _ & <-). apply pathbase_nonempty. }
+  assert (Hnew : l_name x <> newname).
+  { intros E. destruct (lm_get_of_in _ _ Hx) as (k1 & E1). rewrite E in E1. congruence. }
+  assert (Hself : l_base x <> l_name x).
+  { apply (no_self_base _ _ Hci Hx). now destruct Hnn. }
+  destruct (beq oldname (l_name x)) eqn:Eo.
+  - (* the renamed layer *)
+    apply beq_true in Eo. assert (x = x0) by (apply (loaded_same_name c f); auto; congruence). subst x0.
+    assert (Hy : layer_named c F' newname =
+                 Some (MkL newname (l_base x) (l_mounts x) (l_exports x) (layer_path c newname) st_empty false false false false [])).
+    { apply layer_named_some. split; [|split].
+      - apply children_in. exists d', na. destruct (LP_child c Hcfg newname Hpn) as (U & D & B).
+        repeat split; auto. apply InF'; [|exact D]. apply in_map_iff. exists (d, na). split; [|exact Hna].
+        unfold move_entry. cbn [fst snd]. now rewrite at_or_under_refl, rel_suffix_self, app_nil_r.
+      - exact Hlegn.
+      - apply (load_from_content c F' newname X'); auto; [apply rewritten_get_self|].
+        unfold X'. apply layerfile_roundtrip. apply (loaded_wf c f _ _ Hld). }
+    rewrite Hy. cbn [l_mounts l_exports l_base]. rewrite !nmounts_beq_refl. cbn [andb].
+    destruct (beq (l_base x) oldname) eqn:Eb; [apply beq_true in Eb; congruence|apply beq_refl].
+  - apply beq_false in Eo.
+    (* still a child of the layers directory *)
+    assert (Hch' : In (l_name x) (children F' (c_layers c))).
+    { apply children_in in Hch as (q & nd & Hq & Hu & Hd & Hb). apply children_in. exists q, nd.
+      repeat split; auto. apply InF'; [|exact Hd]. apply in_map_iff. exists (q, nd). split.
+      - unfold move_entry. cbn [fst snd]. destruct (at_or_under d q) eqn:Eu; [|reflexivity]. exfalso.
+        unfold at_or_under in Eu. apply orb_true_iff in Eu as [Eu|Eu].
+        + apply beq_true in Eu. subst q. destruct (LP_child c Hcfg oldname Hpo) as (_ & _ & B). fold d in B. congruence.
+        + rewrite forallb_forall in H6. specialize (H6 (q, nd) Hq). cbn [fst] in H6.
+          rewrite (LP_eq c Hcfg oldname Hpo) in H6. fold d in H6. rewrite Eu, Hd, beq_refl in H6. discriminate.
+      - apply Hkeep; [exact Hq|]. cbn [fst]. unfold at_or_under. rewrite Hu. apply orb_true_r. }
+    destruct (beq (l_base x) oldname) eqn:Eb.
+    + (* a child of the renamed layer: its layerconfig was rewritten *)
+      apply beq_true in Eb. destruct (KSc x Hx Eb) as (k & Hk & Hst).
+      assert (Hkn : l_name k = l_name x) by now apply static_name.
+      assert (HgG : fs_get G (PC c (l_name k)) = Some (File (Xk newname k))).
+      { apply fold_get_hit; [exact Hk|]. intros k1 Hk1 E1.
+        apply (PC_inj c Hcfg _ _ (KSp k1 Hk1) (KSp k Hk)) in E1.
+        destruct (KSs k1 Hk1) as (x1 & Hx1 & Hst1 & _).
+        assert (x1 = x). { apply (loaded_same_name c f); auto. rewrite <- (static_name _ _ Hst1), E1. exact Hkn. }
+        subst x1. unfold Xk. now rewrite (static_mounts _ _ Hst1), (static_exports _ _ Hst1),
+          (static_mounts _ _ Hst), (static_exports _ _ Hst). }
+      assert (HgF : fs_get F' (PC c (l_name x)) = Some (File (Xk newname k))).
+      { unfold F'. rewrite rewritten_get_other; [now rewrite <- Hkn|].
+        intros E. apply (PC_inj c Hcfg _ _ Hnn Hpn) in E. contradiction. }
+      assert (Hy : layer_named c F' (l_name x) =
+                   Some (MkL (l_name x) newname (l_mounts x) (l_exports x) (layer_path c (l_name x)) st_empty false false false false [])).
+      { apply layer_named_some. split; [exact Hch'|split; [exact Hlg|]].
+        apply (load_from_content c F' (l_name x) (Xk newname k)); auto.
+        unfold Xk. rewrite (static_mounts _ _ Hst), (static_exports _ _ Hst). apply layerfile_roundtrip.
+        pose proof (loaded_wf c f _ _ Hld) as W. apply lf_wf_parts in W as (_ & W2 & W3). apply lf_wf_parts.
+        repeat split; auto. apply base_ok_tok. apply legal_tok; [exact Hlegn|now destruct Hpn]. }
+      rewrite Hy. cbn [l_mounts l_exports l_base]. rewrite !nmounts_beq_refl. apply beq_refl.
+    + (* untouched *)
+      apply beq_false in Eb.
+      assert (HgF : fs_get F' (PC c (l_name x)) = fs_get f (PC c (l_name x))).
+      { unfold F'. rewrite rewritten_get_other by (intros E; apply (PC_inj c Hcfg _ _ Hnn Hpn) in E; contradiction).
+        unfold G. rewrite fold_get_miss.
+        - unfold g2. rewrite fs_get_map_move.
+          + apply Hget. unfold PC. apply (LP_under_L c); [exact Hnn|right; now exists LCF].
+          + destruct (at_or_under d (PC c (l_name x))) eqn:Eu; [|reflexivity]. exfalso. apply Eo.
+            apply (LP_under_inj c Hcfg oldname (l_name x) _ (sl :: LCF) Hpo Hnn Eu eq_refl). right. now exists LCF.
+          + destruct (at_or_under d' (PC c (l_name x))) eqn:Eu; [|reflexivity]. exfalso. apply Hnew. symmetry.
+            apply (LP_under_inj c Hcfg newname (l_name x) _ (sl :: LCF) Hpn Hnn Eu eq_refl). right. now exists LCF.
+        - intros k Hk E. apply (PC_inj c Hcfg _ _ Hnn (KSp k Hk)) in E.
+          destruct (KSs k Hk) as (x1 & Hx1 & Hst1 & Hb1).
+          assert (x1 = x). { apply (loaded_same_name c f); auto. now rewrite <- (static_name _ _ Hst1). }
+          subst x1. contradiction. }
+      assert (Hy : layer_named c F' (l_name x) = Some x).
+      { apply layer_named_some. split; [exact Hch'|split; [exact Hlg|]]. rewrite <- Hld. apply load_layer_congr.
+        - change D_LayerconfigFile with LCF. unfold lc_regular in Hreg. rewrite forallb_forall in Hreg.
+          apply Hreg in Hch. now apply negb_true_iff in Hch.
+        - change D_LayerconfigFile with LCF. rewrite (PC_eq c Hcfg _ Hnn). exact HgF. }
+      rewrite Hy. rewrite !nmounts_beq_refl. apply beq_refl.
+Qed.
+
+(* the whole property predicate on the model's rename step *)
+Theorem rename_step_spec c w e um oldname newname :
+  wf_world c (wo_fs w) (CRename oldname newname) = true -> wf_rename c (wo_fs w) oldname newname = true ->
+  C11.step_spec c w (view_of_model c w e (CRename oldname newname) um) = true.
+Proof.
+  intros H1 H2. rewrite step_spec_eq.
+  destruct (view_of_model_fields c w e (CRename oldname newname) um) as (_ & -> & _ & _).
+  destruct (e_pretend e) eqn:Ep; [reflexivity|].
+  rewrite (crash_atomic_gen c w e _ um Ep H1), (rename_preserves c w e um oldname newname Ep H2). reflexivity.
+Qed.
+
+(* ------------------------------------------------------------------ rebase and rename together *)
+Definition wf_rewrite (c : cfgT) (f : fsT) (cmd : command) : bool :=
+  match cmd with
+  | CRebase a _ => wf_rebase c f a
+  | CRename a b0 => wf_rename c f a b0
+  | _ => false
+  end.
+Theorem rewrite_preserves c w e cmd um : e_pretend e = false -> wf_rewrite c (wo_fs w) cmd = true ->
+  conj2 c w (view_of_model c w e cmd um) = true.
+Proof.
+  intros Hp H. destruct cmd; try discriminate H; cbn [wf_rewrite] in H.
+  - now apply rename_preserves.
+  - now apply rebase_preserves.
+Qed.
